@@ -1002,12 +1002,12 @@ def gen_cases2(tier, rng):
         cases.append(dict(kind="h2-empty", n=2, k=2, views=True, ops=[o, ["q", 0, "len"]]))
     # (B) query -> edit -> same query (stale answers), without the always-on views
     pairs = [(q, m) for q in Q0 for m in M if m[1] == 0 or m[0] in ("copy", "merge")]
-    take = pairs if tier == "thorough" else rng.sample(pairs, 900)
+    take = rng.sample(pairs, 4000 if tier == "thorough" else 900)
     for q, m in take:
         cases.append(dict(kind="h2-stale", n=2, k=2, views=False, skip=len(PRE2), ops=PRE2 + [q, m, q]))
     # (B') edit -> edit -> query / copy then edit the original, query both
     mm = [(a, b) for a in M for b in M]
-    for a, b in rng.sample(mm, 600 if tier == "quick" else 6000):
+    for a, b in rng.sample(mm, 600 if tier == "quick" else 3000):
         q = rng.choice(Q0)
         cases.append(dict(kind="h2-pairs", n=2, k=2, views=rng.random() < 0.5, skip=len(PRE2),
                           ops=PRE2 + [a, b, q, ["q", 1, q[2]] + q[3:]]))
@@ -1016,7 +1016,7 @@ def gen_cases2(tier, rng):
             cases.append(dict(kind="h2-copy", n=3, k=2, views=True, skip=len(PRE2),
                               ops=PRE2 + [["copy", 0, 2, rng.choice(["deep", "copy"])], m, ["q", 2, "inc", False, "kw"], ["q", 2, "splist"]]))
     # (C) random histories over the overlapping vocabulary
-    for _ in range(500 if tier == "quick" else 5000):
+    for _ in range(500 if tier == "quick" else 2500):
         cases.append(dict(kind="h2-random", n=3, k=2, views=rng.random() < 0.5, ops=_rand_hist2(rng, 24 if tier == "quick" else 40, 3)))
     cases.append(big_case())
     return cases
